@@ -361,7 +361,7 @@ def sec_plumbing2(rec, patches=None):
         rot = rotation.SymRotation(mat=Rs, single=False)
         ld = _make_loader(L, xp, stubs.ImgStub(size), P, rot, scale, 3, shp, False)
         tasks = ld.construct_loading_tasks(backend=xp)
-        return [t.compute() for t in tasks]
+        return stubs.compute_together(tasks)
 
     paths = explore(run, assumptions=hyps)
     o = [z3.Real(f"o{i}") for i in range(3)]
@@ -447,6 +447,14 @@ def sec_batch_options(rec, patches=None):
                             rec.fact(f"{tag}/{how}[{i}]/order,output_shape,corner_safe", okc, key="C02/batch-options/propagation", detail={"order": ld.order, "output_shape": list(ld.output_shape), "corner_safe": bool(ld.corner_safe)},
                                      reproduced=True if okc else replay_batch_options({})[0])
                             rec.query(f"{tag}/{how}[{i}]/scale", hyps + [pth.condition()], zr(ld.scale) == scale.e, key="C02/batch-options/scale", replay=replay_batch_options, twin=False)
+
+
+def sec_batch_graph(rec, patches=None):
+    """the loading tasks of a batch are computed in ONE dask graph (as construct_dask().compute() does): sub-tomogram i is still cut from the tomogram of molecule i
+    (executed by C03's batch section; covers task keys that collide between the per-tomogram loaders)"""
+    from .c03 import sec_batch
+
+    sec_batch(rec, ids=(0, 1, 0, 1), patches=patches)
 
 
 def sec_conformance(rec):
@@ -535,7 +543,7 @@ def sec_conformance(rec):
 
 def sections(tier):
     S = [("slicepad", "checks.c02", "sec_slicepad", {}), ("conformance", "checks.c02", "sec_conformance", {}),
-         ("plumbing2", "checks.c02", "sec_plumbing2", {}), ("batch-options", "checks.c02", "sec_batch_options", {})]
+         ("plumbing2", "checks.c02", "sec_plumbing2", {}), ("batch-options", "checks.c02", "sec_batch_options", {}), ("batch-one-graph", "checks.c02", "sec_batch_graph", {})]
     for order in (0, 1, 3):
         S.append((f"sampling-o{order}", "checks.c02", "sec_sampling", {"order": order, "corner_safe": False}))
         # unrotated molecules, concrete boxes: everything is linear, so "no interpolation needed" shortcuts with tolerances / rounding are decided quickly
